@@ -125,11 +125,15 @@ func remoteNameAddr(name string) (ent string, feat uint) {
 // ---------- writer ----------
 
 type Writer struct {
-	mu   sync.Mutex
-	msgs [][]byte
+	mu      sync.Mutex
+	msgs    [][]byte
+	onWrite func([]byte) // optional: called first (a slow connection blocks here)
 }
 
 func (w *Writer) WriteShipMessageWithPayload(msg []byte) {
+	if w.onWrite != nil {
+		w.onWrite(msg)
+	}
 	w.mu.Lock()
 	defer w.mu.Unlock()
 	c := make([]byte, len(msg))
